@@ -56,6 +56,8 @@ CURATED = [
     ("F3: NONE then COMBINED on one object", CTOR0, [SETUP, SOLVE, S("ext", 3), SETUP, SOLVE]),
     ("F5: COMBINED, second solve without setup", dict(CTOR0, ext=3), [SETUP, SOLVE, S("misc", 4), SOLVE, SOLVE]),
     ("F20: COMBINED with FMG, second solve after a switch (the start-up must run in the re-armed mode)", dict(CTOR0, ext=3, fmg=True, L=3), [SETUP, SOLVE, SOLVE]),
+    ("automatic level count, problem refined and set up again (the refinement loop of convergence_order.cpp)", dict(CTOR0, L=0), [SETUP, SOLVE, S("grid", 1), SETUP, SOLVE]),
+    ("automatic level count with extrapolation and FMG, refined, take strategy", dict(CTOR0, L=0, ext=1, fmg=True, take=True), [SETUP, SOLVE, S("grid", 1), SETUP, SOLVE, SOLVE]),
     ("F20: COMBINED with FMG, solve twice, set up again, solve", dict(CTOR0, ext=3, fmg=True, L=2), [SETUP, SOLVE, SOLVE, SETUP, SOLVE]),
     ("F4/F6: zero-iteration solve after a real one", CTOR0, [SETUP, SOLVE, S("maxIter", 0), SOLVE]),
     ("F6: both tolerances off", dict(CTOR0, maxIter=2), [SETUP, S("absOn", False), S("relOn", False), SOLVE, S("absOn", True), SOLVE]),
